@@ -407,7 +407,7 @@ fn build_via(how: usize, e: &[(String, Value)], rng: &mut Rng) -> Object {
 			for (k, v) in e {
 				o.push(k.as_str().into(), v.clone());
 			}
-			let junk = 20 + rng.below(60);
+			let junk = if cfg!(miri) { 3 + rng.below(8) } else { 20 + rng.below(60) };
 			for j in 0..junk {
 				o.push(format!("\u{1}junk{}", j).as_str().into(), Value::Null);
 			}
@@ -526,7 +526,7 @@ pub fn run_c14(cfg: &Config) -> i32 {
 	total.merge(rep);
 
 	// (b) total order: all triples of a small exhaustive family (mixed lengths, shared key prefixes)
-	{
+	if !cfg.san {
 		let keys = ["a", "b", "c"];
 		let vals = ["0", "1", "2"];
 		let max = if thorough { 3 } else { 2 };
